@@ -1,7 +1,8 @@
 // C02 — outputs locked by standard programs are spendable only with a matching witness.
 //
 // For P2WPKH, P2WSH(m-of-n multisig) and the bare multisig program, for spend and veto inputs:
-//   - every sequence (with repetition) of m-1, m and m+1 signers out of n as witness signatures;
+//   - every sequence (with repetition) of m-1 and m signers out of n as witness signatures, and every
+//     ordered selection of m distinct signers with one more signature (any signer) below it;
 //     the statement decides: valid iff the last m signatures are by strictly increasing signers
 //     (the key order committed in the program) - an extra leading item is ignored junk,
 //   - on one valid spend per program: every single-bit flip of every signature, of the public key /
@@ -326,12 +327,26 @@ func (r *runner) sequences() {
 				return
 			}
 			for k := 0; k < p.n; k++ {
+				// m+1 signatures: one extra signature (any signer) below every ordered selection of
+				// m distinct signers; repetitions among the deciding m are exhausted at length m
+				if length == p.m+1 && pos >= 1 && containsInt(idx[1:pos], k) {
+					continue
+				}
 				idx[pos] = k
 				rec(pos + 1)
 			}
 		}
 		rec(0)
 	}
+}
+
+func containsInt(s []int, v int) bool {
+	for _, x := range s {
+		if x == v {
+			return true
+		}
+	}
+	return false
 }
 
 func hasRepeat(s []int) bool {
@@ -719,7 +734,7 @@ func main() {
 	run := ev.Start("C02", "exploration")
 	maxN := run.Pick(3, 6)
 	run.Set("max_n", maxN)
-	run.Set("rule", "programs: P2WPKH (one std-lib key, one chainkd wallet-style key), P2WSH(m-of-n) and bare multisig for every 1<=m<=n<=max_n, each as spend input and as veto input of a 2-input 3-output transaction. Cases: every sequence with repetition of m-1, m, m+1 signers out of n (valid iff the last m are strictly increasing); on the reference valid spend every single-bit flip of every signature (512 each), S+L, wrong lengths, outsider key, sighash of the other input / another tx / the bare tx id, signatures replayed between two inputs of the same program, every single-bit flip and length change of the pubkey / redeem script in the witness, wrong layouts, foreign self-consistent witness, lower-threshold script; every consensus-class single-field mutation of the signed transaction from the C03 list (quick: hash fields every 16th bit, thorough: every bit; must fail with the old signature; re-signed to show the signature decided). distinct_nontrivial = cases expected valid that validated + committed-field mutations that failed with the stale signature and validated once re-signed.")
+	run.Set("rule", "programs: P2WPKH (one std-lib key, one chainkd wallet-style key), P2WSH(m-of-n) and bare multisig for every 1<=m<=n<=max_n, each as spend input and as veto input of a 2-input 3-output transaction. Cases: every sequence with repetition of m-1 and of m signers out of n, every ordered selection of m distinct signers with one extra signature of any signer below it (valid iff there are at least m and the last m are strictly increasing); on the reference valid spend every single-bit flip of every signature (512 each), S+L, wrong lengths, outsider key, sighash of the other input / another tx / the bare tx id, signatures replayed between two inputs of the same program, every single-bit flip and length change of the pubkey / redeem script in the witness, wrong layouts, foreign self-consistent witness, lower-threshold script; every consensus-class single-field mutation of the signed transaction from the C03 list (quick: hash fields every 16th bit, thorough: every bit; must fail with the old signature; re-signed to show the signature decided). distinct_nontrivial = cases expected valid that validated + committed-field mutations that failed with the stale signature and validated once re-signed.")
 	run.Assume("ed25519 and SHA3/RIPEMD160 are trusted; signatures made with crypto/ed25519 (std) and chainkd.XPrv.Sign over SHA3-256(input entry id || tx id) computed here")
 	run.Assume("Tx.ID / input entry ids are taken from types.MapTx (their completeness is C03's subject); unspendable-output program/vote fields that C03 reports as missing from the id are recorded under coverage.signature_does_not_cover (not re-reported here)")
 	run.Assume("an extra witness item below a valid witness is ignored by the programs and counted valid: it contains valid signatures of the committed keys over this transaction")
